@@ -218,6 +218,11 @@ class RingDom:
         raise EngineError("cannot lift %r" % (v,))
 
     def div(self, a, b):
+        cb = getattr(self, "abstract_div", None)
+        if cb is not None:
+            r = cb(a, b)
+            if r is not None:
+                return r
         fb = self.lift(b)
         if fb == 0:
             raise Unsupported("division by zero in the exact domain")
